@@ -2,6 +2,7 @@ package eng
 
 import (
 	"fmt"
+	"os"
 	"go/token"
 	"go/types"
 	"sort"
@@ -32,7 +33,7 @@ func (e *Engine) VerifyFunc(full string) *FuncResult {
 	defer func() { e.cur = nil }()
 	tb := e.tb
 
-	st := &State{Heap: map[string]*Term{}, pcSeen: map[int]bool{}, Cells: map[int]cellContent{}, Iters: map[int]iterState{}, Ghost: map[string]*Term{}, Written: map[string]bool{}}
+	st := &State{Heap: map[string]*Term{}, pcSeen: map[int]bool{}, Cells: map[int]cellContent{}, Iters: map[int]iterState{}, Ghost: map[string]*Term{}, Written: map[string]bool{}, Views: map[int]viewOrigin{}}
 	st.Alloc = tb.Const("A0", SInt)
 	e.assume(st, tb.Ge(st.Alloc, tb.Int(1)))
 
@@ -49,7 +50,11 @@ func (e *Engine) VerifyFunc(full string) *FuncResult {
 				case specErr:
 					e.genError("spec error: %s", x.msg)
 				default:
-					panic(r)
+					// an internal error of the generator must not take the whole check down: report it against this function
+					e.genError("internal generator error: %v", r)
+					if os.Getenv("GOVC_DEBUG") != "" {
+						panic(r)
+					}
 				}
 			}
 		}()
@@ -158,6 +163,13 @@ func (e *Engine) assumeGlobals(st *State, c *specCtx) {
 		gc.env = map[string]specBind{}
 		e.assume(st, e.evalClause(&gc, g.Clause))
 	}
+	for _, a := range e.Specs.EnvAssumes {
+		ac := *c
+		ac.pkg = e.Pkgs[a.Pkg].Types
+		ac.env = map[string]specBind{}
+		e.Assumed["start-up configuration assumed ("+a.Pkg+"): "+a.Clause.Src] = true
+		e.assume(st, e.evalClause(&ac, a.Clause))
+	}
 	for _, a := range e.Specs.Axioms {
 		ac := *c
 		ac.pkg = e.Pkgs[a.Pkg].Types
@@ -235,7 +247,10 @@ func (e *Engine) atReturn(st *State, fn *ssa.Function, ct *Contract, env map[str
 		e.oblige(st, "post", name, fn.Pos(), g, "postcondition: "+en.Src)
 	}
 	// frame
-	if !ct.ModAny {
+	if ct.NoFrame {
+		e.Assumed["frame of "+fr.Key+" is assumed, not checked (noframe): it is taken to write only objects it allocates and the locations it lists"] = true
+	}
+	if !ct.ModAny && !ct.NoFrame {
 		prec := &specCtx{e: e, st: st, heap: e.entryHeap, oldHeap: e.entryHeap, oldAlloc: e.entryAlloc, env: env, pkg: pkg}
 		var locs []Loc
 		for _, m := range ct.Modifies {
